@@ -264,6 +264,10 @@ Section Store.
       eapply same_but_trans; [exact S1|]. eapply set_item_same_but; eauto.
   Qed.
 
+  Lemma store_add_top_same_but : forall d data h h' res,
+    store_add_top vt W d data h = (h', res) -> same_but d h h'.
+  Proof. unfold store_add_top. intros. eapply store_add_same_but; eauto. Qed.
+
   Lemma store_new_grows : forall h h' s, store_new h = (h', s) -> grows h h'.
   Proof.
     unfold store_new. intros h h' s H.
